@@ -3,6 +3,7 @@ CONSTANTS
   N = 32767
   GenMax <- G16_Max
   GenShapes <- G_Shapes
+  SampleK = 40
   GenVals <- G_Vals
 INVARIANT EmitCol
 CHECK_DEADLOCK FALSE
